@@ -111,6 +111,33 @@ Theorem C20_disposed_forever :
 Proof. exact (fun A react n c => disposed_forever (value (c_st c)) KSubject react n c). Qed.
 Print Assumptions C20_disposed_forever.
 
+
+(* a subscribed observer stays registered: on every call tree, an observer whose
+   wrapper is not stopped (it subscribed, has not unsubscribed, has received no
+   terminal) is in the observer list of a live subject -- i.e. in the snapshot
+   `self.observers.copy()` of the next emission *)
+Theorem C20_subscribed_observer_is_in_the_snapshot :
+  forall (A : Type) (react : nat -> nat -> list (@op A)) (v0 : A) (top : list (@op A)) (fuel o : nat) os,
+    let c := run subject_cls react fuel (init_cfg v0 top) in
+    c_obs c o = Some os -> a_stopped os = false -> subject_live (c_st c) -> In o (observers (c_st c)).
+Proof. exact (fun A react v0 => live_observer_registered v0 KSubject react v0). Qed.
+Print Assumptions C20_subscribed_observer_is_in_the_snapshot.
+
+(* an emission hands the notification to exactly the registered observers, in
+   subscription order, and a wrapper that is not stopped passes it on *)
+Theorem C20_emission_goes_to_the_snapshot :
+  forall (A : Type) (s : @sstate A) (v : A),
+    snd (c_next subject_cls s v) = map (fun o => IDeliver o (Next v)) (observers s).
+Proof. exact (@subject_next_snapshot). Qed.
+Print Assumptions C20_emission_goes_to_the_snapshot.
+
+Theorem C20_live_wrapper_delivers :
+  forall (A : Type) (react : nat -> nat -> list (@op A)) (s : @sstate A) m k l o n os,
+    m o = Some os -> a_stopped os = false ->
+    exists c', step subject_cls react (Cfg s m (IDeliver o n :: k) l) = c' /\ c_rlog c' = EGot o n :: l.
+Proof. exact (fun A react s => deliver_reaches_live (value s) KSubject react s). Qed.
+Print Assumptions C20_live_wrapper_delivers.
+
 (* ---- non-vacuity / witnesses (values are pool ids: 0 = None, 1 = 0, 2 = False) ---- *)
 
 (* late subscriber after an error gets only the error; a third one after dispose gets DisposedException *)
